@@ -4,7 +4,7 @@ from . import common as C
 from . import e2
 
 
-def run_e2(chk, src, name, timeout=60, harness_args=(), support=C.FEAT_MIN_SRCS, sig_prefix=None, max_group=64, extra_flags=(), case_filter=None):
+def run_e2(chk, src, name, timeout=60, harness_args=(), support=C.FEAT_MIN_SRCS, sig_prefix=None, max_group=64, extra_flags=(), case_filter=None, group_timeout=5):
     bdir = C.mkdir(os.path.join(C.BUILD, chk.pid, name))
     work = C.mkdir(os.path.join(bdir, 'smt'))
     for f in os.listdir(work):
@@ -21,7 +21,7 @@ def run_e2(chk, src, name, timeout=60, harness_args=(), support=C.FEAT_MIN_SRCS,
     def one(ix):
         c = cases[ix]
         try:
-            return e2.decide_case(d, c, work, timeout=timeout, rnd=random.Random(seeds[ix]), max_group=max_group)
+            return e2.decide_case(d, c, work, timeout=timeout, rnd=random.Random(seeds[ix]), max_group=max_group, group_timeout=group_timeout)
         except Exception as ex:  # noqa
             import traceback
             return ('ERR', traceback.format_exc())
